@@ -33,6 +33,8 @@ def history_case(rng, maxlen):
     for i in range(k):
         r = rng.random()
         cd = rbytes(rng, 16)
+        if rng.random() < 0.12:
+            cd = rng.choice([bytes(16), b"\xff" * 16, bytes(15) + b"\x01", b"\x01" + bytes(15), b"\x80" + bytes(15)])   # any 16 bytes are a valid client challenge
         if r < 0.06:
             # the client's challenge bytes are arbitrary 16 bytes: in particular they may equal the server
             # challenge on offer (anyone who saw the challenge can send it back), with a right or a wrong proof
